@@ -117,4 +117,116 @@ theorem unionIntersectLoop_at (p : Version) (hp : p.wf = true) : ∀ (fuel : Nat
         · exact hnew q h
         · exact Or.inr h
 
+/-! ### the merge walks of `allows_any` / `allows_all` over range members, at one probe -/
+
+/-- a range member the probe is fine for -/
+def RC.RngAt (c : RC) (p : Version) : Prop := ∃ r, c = .rng r ∧ r.WF ∧ r.OKat p
+
+theorem RC.RngAt.base {c : RC} {p : Version} (h : c.RngAt p) : c.WF ∧ c.OKat p := by
+  obtain ⟨r, rfl, h1, h2⟩ := h; exact ⟨h1, h2⟩
+
+theorem rng_allowsAll_sound_at (r s : VRange) (hr : r.WF) (hs : s.WF)
+    (h : RC.allowsAll (.rng r) (.rng s) = true) (p : Version) (hp : p.wf = true) (or' : r.OKat p) (os : s.OKat p)
+    (hsp : s.allows p = true) : r.allows p = true := by
+  simp only [RC.allowsAll, Bool.and_eq_true, Bool.not_eq_true'] at h
+  have hd := (VRange.allows_iff_den_at s p hs.1 hp os).1 hsp
+  exact (VRange.allows_iff_den_at r p hr.1 hp or').2
+    ⟨VRange.allowsLower_false h.1 p hd.1, VRange.allowsHigher_false h.2 p hd.2⟩
+
+theorem rng_allowsAny_false_sound_at (r s : VRange) (hr : r.WF) (hs : s.WF)
+    (h : RC.allowsAny (.rng r) (.rng s) = .ok false) (p : Version) (hp : p.wf = true) (or' : r.OKat p)
+    (os : s.OKat p) : ¬ (r.allows p = true ∧ s.allows p = true) := by
+  rintro ⟨hap, hbp⟩
+  simp only [RC.allowsAny, VRange.isStrictlyHigher, Except.ok.injEq, Bool.not_eq_false', Bool.or_eq_true] at h
+  have hd1 := (VRange.allows_iff_den_at r p hr.1 hp or').1 hap
+  have hd2 := (VRange.allows_iff_den_at s p hs.1 hp os).1 hbp
+  rcases h with h | h
+  · exact VRange.strictlyLower_true h p ⟨hd2.2, hd1.1⟩
+  · exact VRange.strictlyLower_true h p ⟨hd1.2, hd2.1⟩
+
+/-- **the merge walk of `VersionUnion.allows_any` at a fine probe**: a "no" is right at the probe -/
+theorem unionAllowsAnyLoop_at (p : Version) (hp : p.wf = true) : ∀ (fuel : Nat) (ours theirs : List RC),
+    ours.length + theirs.length < fuel →
+    (∀ c ∈ ours, c.RngAt p) → (∀ c ∈ theirs, c.RngAt p) → SortedRC ours → SortedRC theirs →
+    ∃ b, VC.unionAllowsAnyLoop fuel ours theirs = .ok b ∧
+      (b = false → ¬ (anyAllows ours p = true ∧ anyAllows theirs p = true))
+  | 0, ours, theirs, hf, _, _, _, _ => by omega
+  | fuel + 1, [], theirs, _, _, _, _, _ => by
+    refine ⟨false, by simp [VC.unionAllowsAnyLoop], fun _ => ?_⟩
+    simp [anyAllows]
+  | fuel + 1, o :: os, [], _, _, _, _, _ => by
+    refine ⟨false, by simp [VC.unionAllowsAnyLoop], fun _ => ?_⟩
+    simp [anyAllows]
+  | fuel + 1, o :: os, t :: ts, hf, ho, ht, hso, hst => by
+    obtain ⟨ro, hro, how, hoo⟩ := ho o (by simp)
+    obtain ⟨rt, hrt, htw, hto⟩ := ht t (by simp)
+    subst hro; subst hrt
+    obtain ⟨a, ha⟩ := RC.allowsAny_ok (.rng ro) (.rng rt)
+    simp only [VC.unionAllowsAnyLoop, ha, bind, Except.bind]
+    cases a with
+    | true => exact ⟨true, by simp [pure, Except.pure], fun h => by cases h⟩
+    | false =>
+      simp only [Bool.false_eq_true, if_false]
+      have hpair : ¬ ((RC.rng ro).allows p = true ∧ (RC.rng rt).allows p = true) :=
+        rng_allowsAny_false_sound_at ro rt how htw ha p hp hoo hto
+      by_cases hh : (RC.rng rt).view.allowsHigher (RC.rng ro).view = true
+      · simp only [hh, if_true]
+        obtain ⟨b, hb, hsem⟩ := unionAllowsAnyLoop_at p hp fuel os (.rng rt :: ts) (by simp at hf ⊢; omega)
+          (fun c hc => ho c (by simp [hc])) ht (List.pairwise_cons.1 hso).2 hst
+        refine ⟨b, hb, fun hbf => ?_⟩
+        have ih := hsem hbf
+        have key : (RC.rng ro).allows p = true → anyAllows ts p = false := by
+          intro hop
+          have hod := (RC.allows_iff_den_at (.rng ro) p how hp hoo).1 hop
+          exact anyAllows_false_of_den_at (fun c hc => (ht c (by simp [hc])).base) hp (drop_ours hh hst p hod)
+        rw [anyAllows_cons (.rng ro) os, anyAllows_cons (.rng rt) ts] at *
+        cases h1 : (RC.rng ro).allows p <;> cases h2 : (RC.rng rt).allows p <;> cases h3 : anyAllows os p <;>
+          cases h4 : anyAllows ts p <;> simp_all
+      · simp only [hh, Bool.false_eq_true, if_false]
+        simp only [Bool.not_eq_true] at hh
+        obtain ⟨b, hb, hsem⟩ := unionAllowsAnyLoop_at p hp fuel (.rng ro :: os) ts (by simp at hf ⊢; omega)
+          ho (fun c hc => ht c (by simp [hc])) hso (List.pairwise_cons.1 hst).2
+        refine ⟨b, hb, fun hbf => ?_⟩
+        have ih := hsem hbf
+        have key : (RC.rng rt).allows p = true → anyAllows os p = false := by
+          intro htp
+          have htd := (RC.allows_iff_den_at (.rng rt) p htw hp hto).1 htp
+          exact anyAllows_false_of_den_at (fun c hc => (ho c (by simp [hc])).base) hp (drop_theirs hh hso p htd)
+        rw [anyAllows_cons (.rng ro) os, anyAllows_cons (.rng rt) ts] at *
+        cases h1 : (RC.rng ro).allows p <;> cases h2 : (RC.rng rt).allows p <;> cases h3 : anyAllows os p <;>
+          cases h4 : anyAllows ts p <;> simp_all
+
+/-- **the merge walk of `VersionUnion.allows_all` at a fine probe**: a "yes" is right at the probe -/
+theorem unionAllowsAllLoop_at (p : Version) (hp : p.wf = true) : ∀ (fuel : Nat) (ours theirs : List RC),
+    ours.length + theirs.length < fuel → (∀ c ∈ ours, c.RngAt p) → (∀ c ∈ theirs, c.RngAt p) →
+    ∃ b, VC.unionAllowsAllLoop fuel ours theirs = .ok b ∧
+      (b = true → anyAllows theirs p = true → anyAllows ours p = true)
+  | 0, ours, theirs, hf, _, _ => by omega
+  | fuel + 1, ours, [], _, _, _ => by
+    refine ⟨true, by cases ours <;> simp [VC.unionAllowsAllLoop], fun _ h => ?_⟩
+    simp [anyAllows] at h
+  | fuel + 1, [], t :: ts, _, _, _ => by
+    exact ⟨false, by simp [VC.unionAllowsAllLoop], fun h => by cases h⟩
+  | fuel + 1, o :: os, t :: ts, hf, ho, ht => by
+    obtain ⟨ro, hro, how, hoo⟩ := ho o (by simp)
+    obtain ⟨rt, hrt, htw, hto⟩ := ht t (by simp)
+    subst hro; subst hrt
+    simp only [VC.unionAllowsAllLoop]
+    by_cases hall : RC.allowsAll (.rng ro) (.rng rt) = true
+    · simp only [hall, if_true]
+      obtain ⟨b, hb, hsem⟩ := unionAllowsAllLoop_at p hp fuel (.rng ro :: os) ts (by simp at hf ⊢; omega)
+        ho (fun c hc => ht c (by simp [hc]))
+      refine ⟨b, hb, fun hbt hth => ?_⟩
+      rw [anyAllows_cons (.rng rt) ts, Bool.or_eq_true] at hth
+      rcases hth with hth | hth
+      · have := rng_allowsAll_sound_at ro rt how htw hall p hp hoo hto hth
+        rw [anyAllows_cons]; simp [RC.allows, this]
+      · exact hsem hbt hth
+    · simp only [hall, Bool.false_eq_true, if_false]
+      obtain ⟨b, hb, hsem⟩ := unionAllowsAllLoop_at p hp fuel os (.rng rt :: ts) (by simp at hf ⊢; omega)
+        (fun c hc => ho c (by simp [hc])) ht
+      refine ⟨b, hb, fun hbt hth => ?_⟩
+      have := hsem hbt hth
+      rw [anyAllows_cons]; simp [this]
+
 end Poetry
